@@ -338,6 +338,48 @@ def c01(tier, replay=None):
             nbig += 1
     total += len(big); total_ok += nbig
     log("[C01 size classes] documents %d ok %d" % (len(big), nbig))
+    # line folding in text fields (CIF 2.0; CIF 1.1 with the same protocol): a line is continued exactly when its last
+    # backslash is followed by nothing but blanks; a backslash followed by any other character - of whatever lexical class -
+    # is content.  The denotation is computed by the rule itself
+    def unfold(lines):
+        out, cur = [], ""
+        for ln in lines:
+            m_ = re.search(r"\\[ \t]*$", ln)
+            if m_:
+                cur += ln[:m_.start()]
+            else:
+                out.append(cur + ln); cur = ""
+        if cur:
+            out.append(cur)
+        return "\n".join(out)
+    tails = ["a", "l", "s", "t", "b", "d", "e", "g", "o", "p", "v", "A", "\"", "'", "#", "$", "_", ";", "[", "]", "{", "}", "q", "x", "1", ":", "\\a", "a b", "n ", "\t", " "]
+    fl = []
+    for tl in tails:
+        # (a fold marker on the very last line has nothing to continue onto; what it means is not settled, and not tried)
+        lines = ["Cu K\\" + tl, "radiation", "long \\", "line", ("end\\" + tl) if tl.strip() else "end"]
+        for dialect, magic in ((2, "#\\#CIF_2.0\n"), (1, "#\\#CIF_1.1\n")):
+            doc = magic + "data_b\n_before 1\n_v\n;\\\n" + "\n".join(lines) + "\n;\n_after 2\n"
+            # (CIF 1.1 read with default options does not unfold: there the same bytes denote themselves)
+            fl.append(("folded text field, lines ending in backslash + %r, CIF %d" % (tl, dialect), doc, unfold(lines) if dialect == 2 else "\\\n" + "\n".join(lines)))
+    nfl = 0
+    for key, po, pr, leak in parse_docs(binary, [(d[1], i) for i, d in enumerate(fl)], chunk=40):
+        label, doc, val = fl[key]
+        problems = []
+        if po is None:
+            problems.append("cif_parse did not return: " + sanitizer_signature(leak or ""))
+        else:
+            errs = [e.get("code") for e in po.get("log", []) if e.get("cb") == "error"]
+            items = ((observed_content(pr["state"]) if pr and "state" in pr else None) or {}).get("b", {}).get("items", {})
+            if po.get("rc") != 0 or errs:
+                problems.append("rc %s, errors %s" % (po.get("rc"), errs[:3]))
+            if (items.get("_v") or {}).get("t") != val or "_before" not in items or "_after" not in items:
+                problems.append("value read as %s, denoted %s" % (json.dumps((items.get("_v") or {}).get("t")), json.dumps(val)))
+        if problems:
+            rep.violation("folded text field: %s" % re.sub(r"[0-9]+", "N", problems[-1])[:40], "%s: %s" % (label, "; ".join(problems)), {"label": label, "document": doc})
+        else:
+            nfl += 1
+    total += len(fl); total_ok += nfl
+    log("[C01 folded lines] documents %d ok %d" % (len(fl), nfl))
     # spellings of codes and names: every printable ASCII character and some others at the first, a middle and the last
     # position of a block code, a frame code and a data name (the generator's own documents use b, f and _n1.. only).  A
     # code is any run of non-blank characters after data_ / save_, a name any such run after the underscore.
